@@ -62,7 +62,8 @@ Verdict(e) ==
          ELSE IF c.op = "tensordot" THEN
               \* output mode order: either documented reading (see Multilinear.Tensordot)
               LET expA == Expected(c, ts, w, mask)
-                  expB == Tensordot(ts[1], ts[2], c.m1, c.m2, c.b1, c.b2, TRUE) IN
+                  t    == TD(c)
+                  expB == Tensordot(ts[1], ts[2], t.m1, t.m2, t.b1, t.b2, TRUE) IN
               IF ~(OutOK(e.out, expA.shape) \/ OutOK(e.out, expB.shape)) THEN "Shape"
               ELSE IF ~(Same(ToT(e.out), expA) \/ Same(ToT(e.out), expB)) THEN "Value"
               ELSE "ok"
